@@ -11,7 +11,6 @@ import (
 	"encoding/xml"
 
 	"mellium.im/xmlstream"
-	"mellium.im/xmpp/internal/ns"
 )
 
 // BUG(ssw): This package is very inefficient, see https://mellium.im/issue/38.
@@ -48,25 +47,31 @@ func tokenDecoder(v interface{}) (*xml.Decoder, error) {
 	return xml.NewDecoder(&b), nil
 }
 
-// rawTokenReader maps a decoders RawToken method onto its Token method.
-type rawTokenReader struct {
+// translatedReader returns the namespace translated tokens of a decoder
+// without the namespace declarations themselves (which are left to the encoder
+// the tokens are written to), so that the names of the tokens say which
+// element is meant no matter how the intermediate encoding spelled it.
+type translatedReader struct {
 	*xml.Decoder
 }
 
-func (r rawTokenReader) Token() (xml.Token, error) {
-	tok, err := r.RawToken()
+func (r translatedReader) Token() (xml.Token, error) {
+	tok, err := r.Decoder.Token()
 	if start, ok := tok.(xml.StartElement); ok {
-		// The "xml" prefix is reserved and never declared; raw tokens report it as
-		// the namespace of the attribute. Use the namespace it is bound to instead
-		// or encoders treat "xml" as a namespace URI and invent a prefix for it
-		// (xmlns:_xml="xml" _xml:lang="en").
-		for i, attr := range start.Attr {
-			if attr.Name.Space == "xml" {
-				start.Attr[i].Name.Space = ns.XML
+		attrs := start.Attr[:0]
+		for _, attr := range start.Attr {
+			if !isNSDecl(attr) {
+				attrs = append(attrs, attr)
 			}
 		}
+		start.Attr = attrs
+		tok = start
 	}
 	return tok, err
+}
+
+func isNSDecl(attr xml.Attr) bool {
+	return attr.Name.Space == "xmlns" || (attr.Name.Space == "" && attr.Name.Local == "xmlns")
 }
 
 // EncodeXML writes the XML encoding of v to the stream.
@@ -85,7 +90,7 @@ func EncodeXML(w xmlstream.TokenWriter, v interface{}) error {
 	if err != nil {
 		return err
 	}
-	_, err = xmlstream.Copy(w, rawTokenReader{Decoder: d})
+	_, err = xmlstream.Copy(w, translatedReader{Decoder: d})
 	if err != nil {
 		return err
 	}
@@ -113,7 +118,7 @@ func EncodeXMLElement(w xmlstream.TokenWriter, v interface{}, start xml.StartEle
 	if err != nil {
 		return err
 	}
-	_, err = xmlstream.Copy(w, rawTokenReader{Decoder: d})
+	_, err = xmlstream.Copy(w, translatedReader{Decoder: d})
 	if err != nil {
 		return err
 	}
